@@ -179,7 +179,9 @@ def position_class(body, fault, log):
     if fault["kind"] == "none":
         return "none"
     if fault["kind"] == "command":
-        return "cmd:" + fault.get("command_kind", "?") + (":big-output" if fault.get("output") else "")
+        return "cmd:" + fault.get("command_kind", "?") + (":big-output" if fault.get("output") else "") + (":signal" if fault.get("signal") else "")
+    if fault["kind"] == "docker-gone":
+        return "docker-gone-then-second-build"
     if fault["kind"] == "spawn":
         return "spawn-failure"
     if fault["kind"] == "preprocessor-panic":
@@ -219,6 +221,15 @@ def run_tree(env, tidx, tree, sh):
     faults += [{"kind": "command", "seq": j, "command_kind": log[j]["kind"], "output": "big-unicode"} for j in range(ncmds) if (j + tidx) % 2 == 0]
     # pack disappears (cannot be spawned) right before a later pack build, i.e. before a rebuild
     faults += [{"kind": "spawn", "seq": j, "command_kind": "pack build (spawn fails)"} for j in range(1, ncmds) if log[j]["kind"] == "pack build"]
+    # a command that is killed by a signal instead of exiting with a code (every third position)
+    faults += [{"kind": "command", "seq": j, "command_kind": log[j]["kind"], "signal": 9} for j in range(ncmds) if (j + tidx) % 3 == 0]
+    # docker cannot be spawned while the first build cleans up; it is back for the second, independent build of the same process,
+    # whose own resources must be cleaned up as always (the first build's cannot be - they are not judged)
+    if len(scenario["builds"]) > 1:
+        first_img = testrun.decode(next(e for e in log if e["kind"] == "pack build"))["image"]
+        b2 = next((e["seq"] for e in log if e["kind"] == "pack build" and testrun.decode(e)["image"] != first_img), None)
+        if b2 is not None and b2 >= 3:
+            faults.append({"kind": "docker-gone", "after_seq": b2 - 3})
     faults += [{"kind": "panic", "point": p} for p in count_panic_points(body)]
     if cfg.get("preprocessor"):
         faults.append({"kind": "preprocessor-panic"})
@@ -229,6 +240,11 @@ def run_tree(env, tidx, tree, sh):
             plan = {"fail_seq": fault["seq"], "exit": 1}
             if fault.get("output"):
                 plan["fail_output"] = fault["output"]
+            if fault.get("signal"):
+                plan["signal"] = fault["signal"]
+        elif fault["kind"] == "docker-gone":
+            plan = {"remove_prog_after_seq": {"seq": fault["after_seq"], "prog": "docker"}}
+            sc["restore_standins"] = True
         elif fault["kind"] == "spawn":
             plan = {"remove_prog_after_seq": {"seq": fault["seq"] - 1, "prog": "pack"}}
         elif fault["kind"] == "panic":
@@ -237,13 +253,22 @@ def run_tree(env, tidx, tree, sh):
             sc["builds"][0]["config"]["preprocessor"]["panic"] = True
         rc, err, log2, left = env.run(sc, plan)
         sh.evaluations += 1
-        what = "scenario %r with %s" % (shape_of(body), ("command #%d (%s) failing%s" % (fault["seq"], fault["command_kind"], " with >64 KiB of non-ASCII output" if fault.get("output") else "")) if fault["kind"] == "command" else
+        what = "scenario %r with %s" % (shape_of(body), ("command #%d (%s) %s%s" % (fault["seq"], fault["command_kind"], "killed by a signal" if fault.get("signal") else "failing", " with >64 KiB of non-ASCII output" if fault.get("output") else "")) if fault["kind"] == "command" else
+                                        ("docker missing from PATH after command #%d until the second build starts" % fault["after_seq"]) if fault["kind"] == "docker-gone" else
                                         ("pack disappearing from PATH before command #%d" % fault["seq"]) if fault["kind"] == "spawn" else
                                         ("a panic at %r" % (fault["point"],)) if fault["kind"] == "panic" else "a panic in the app-dir preprocessor")
         case = dict(case0, fault=fault, scenario=sc, plan=plan)
         if fault["kind"] == "spawn" and (os.path.lexists(os.path.join(env.bin, "pack")) or rc == 0):
             sh.inconclusive.append("%s: the scripted disappearance of pack did not take effect" % what)
             continue
+        if fault["kind"] == "docker-gone":
+            # only the second build is judged: everything from its pack build on
+            packs = [(e["seq"], testrun.decode(e)["image"]) for e in log2 if e["kind"] == "pack build"]
+            second = next((sq for sq, img in packs if img != packs[0][1]), None) if packs else None
+            if rc is None or rc < 0 or second is None:
+                sh.inconclusive.append("%s: the second build did not start (exit %r)" % (what, rc))
+                continue
+            log2 = [e for e in log2 if e["seq"] >= second]
         if fault["kind"] == "command" and not any(e["failed"] for e in log2):
             sh.inconclusive.append("%s: the scripted command failure never fired" % what)
             continue
